@@ -18,6 +18,7 @@ func init() {
 			"PV-WHOLE: every json expression reaches the path table; PV-GUARD: a pattern capture is withheld iff it is named exactly `_`",
 			"PV-API IsValidLabel: first character by the identifier-start predicate, the rest by the identifier predicate (the names unpack and regexp accept)",
 			"LP-PIPE: each stage is fed the previous stage's line",
+			"PV-API pattern literals are prefixes; pattern/JSON-path readers decode runes; KeyToLabel class table",
 		},
 		NotDecided: []string{"that jx, logfmt and regexp return the values that are in the document", "logqlpattern.Match's literal/capture alternation", "JSON path parsing"},
 		Rules: func(r *Run) {
@@ -45,6 +46,9 @@ func init() {
 			rulePatternUnnamedExact(r)
 			ruleIdentPredicates(r) // which field names unpack/regexp accept as labels
 			ruleLPPipe(r)          // a parser stage after unpack sees the unpacked line
+			rulePatternLiteralAnchored(r)
+			ruleReadersDecodeRunes(r)
+			ruleKeyToLabel(r)
 		},
 	})
 }
